@@ -1,5 +1,78 @@
+import Casket.Model.VHost
+import Casket.Spec.VHost
 import Driver.Proto
-/- Streams of C01 (stub: not built yet). -/
+/-
+Streams of C01.
+  c01.route     sites  hosthex  pathhex  protoMajor
+     sites = comma list of  <keyhex>:<fallback 0|1>:<addrhosthex>   (declaration order; may be empty)
+     out   = site TAB <index> TAB <path_prefix hex>   |   notfound TAB <status>
+  c01.hostport  hex            out = ok:<hosthex> | err      (net.SplitHostPort, host part)
+  c01.match     keys  queryhex   (vhostTrie.Insert / Match directly, keys = comma list of hex)
+     out   = <index> TAB <prefix hex> | -
+-/
 namespace Driver.C01
-def streams : List Driver.Stream := []
+open Casket.VHost
+
+def bytes (s : String) : Option Bytes := (Driver.unhex s).map (·.map UInt8.toNat)
+def hexB (b : Bytes) : String := Driver.hex (b.map UInt8.ofNat)
+
+def parseSite (s : String) : Option Site :=
+  match s.splitOn ":" with
+  | [k, f, a] => do pure { key := ← bytes k, fallback := f == "1", addrHost := ← bytes a }
+  | _ => none
+
+def parseSites (s : String) : Option (List Site) :=
+  if s = "" then some [] else (s.splitOn ",").mapM parseSite
+
+def parseCase : List String → Option (List Site × Req)
+  | [ss, h, p, pm] => do
+    pure (← parseSites ss, { host := ← bytes h, path := ← bytes p, protoMajor := ← pm.toNat? })
+  | _ => none
+
+def showOutcome : Outcome → String
+  | .site i p => s!"site\t{i}\t{hexB p}"
+  | .notFound st => s!"notfound\t{st}"
+
+def parseOutcome (s : String) : Option Outcome :=
+  match s.splitOn "\t" with
+  | ["site", i, p] => do pure (.site (← i.toNat?) (← bytes p))
+  | ["notfound", st] => do pure (.notFound (← st.toNat?))
+  | _ => none
+
+def routeModel (f : List String) : String :=
+  match parseCase f with
+  | none => "bad-case"
+  | some (sites, r) => showOutcome (route sites r)
+
+def routeJudge (f : List String) (out : String) : String :=
+  match parseCase f, parseOutcome out with
+  | some (sites, r), some o => Casket.VHostSpec.verdict sites r o
+  | _, _ => "bad:unparsable:" ++ out
+
+def hostportModel : List String → String
+  | [h] => match bytes h with
+    | some b => match splitHostPort b with
+      | some x => "ok:" ++ hexB x
+      | none => "err"
+    | none => "bad-case"
+  | _ => "bad-case"
+
+def matchModel : List String → String
+  | [ks, q] =>
+    match (if ks = "" then some [] else (ks.splitOn ",").mapM bytes), bytes q with
+    | some keys, some q =>
+      let t := (keys.zipIdx.foldl (fun (t : Trie) (ki : Bytes × Nat) => t.insert ki.1 ki.2)
+                 { fallbacks := defaultFallbacks, root := [] })
+      match t.match_ q with
+      | none => "-"
+      | some (i, p) => s!"{i}\t{hexB p}"
+    | _, _ => "bad-case"
+  | _ => "bad-case"
+
+def streams : List Driver.Stream := [
+  { name := "c01.route", model := routeModel, judge := routeJudge },
+  { name := "c01.hostport", model := hostportModel, judge := fun _ _ => "ok" },
+  { name := "c01.match", model := matchModel, judge := fun _ _ => "ok" }
+]
+
 end Driver.C01
